@@ -19,10 +19,10 @@ Lemma wake_stable : forall s e, rd s = RParked -> wake_enabled s = true -> is_re
   rd (step s e) = RParked /\ wake_enabled (step s e) = true.
 Proof.
   intros s e Hr Hw He.
-  destruct s as [pend0 rbuf0 token0 closeN0 ss0 epc0 ppc0 lc0 sclosing0 dpc0 now0 dl0 tmr0 tch0 ptick0 use_t0 armed0 rd0 minsz0 res0].
+  destruct s as [pend0 rbuf0 token0 closeN0 ss0 epc0 ppc0 lc0 sclosing0 dpc0 cbmode0 now0 dl0 tmr0 tch0 ptick0 use_t0 armed0 rd0 minsz0 res0].
   cbn in Hr. subst rd0. unfold wake_enabled in *. cbn in Hw.
-  destruct e; try discriminate; cbn [step];
-    cbn [pend rbuf token closeN ss epc ppc lc sclosing dpc now dl tmr tch ptick use_t armed rd minsz res];
+  destruct e; try discriminate; unfold step; cbn [step_gen]; unfold cb_busy;
+    cbn [pend rbuf token closeN ss epc ppc lc sclosing dpc cbmode now dl tmr tch ptick use_t armed rd minsz res];
     brk; cbn; rewrite ?orb_true_r; auto.
   (* Fire: tch becomes true *)
   all: try (split; [reflexivity|]; destruct token0, closeN0, use_t0, tch0; cbn in *; auto).
@@ -40,7 +40,7 @@ Proof.
   - destruct (h2 Hc) as [E|[E|[E|E]]]; [| | |right; rewrite E; rewrite ?orb_true_r; reflexivity].
     + left. rewrite E. rewrite orb_true_r. reflexivity.
     + right. rewrite E. rewrite orb_true_r. reflexivity.
-    + right. unfold lc_mid_open in E. destruct (lc s) as [| |o|o|o]; try discriminate; destruct o; try discriminate;
+    + right. unfold lc_mid_open in E. destruct (lc s) as [| |o|o|o|o]; try discriminate; destruct o; try discriminate;
         cbn; rewrite ?orb_true_r; reflexivity.
   - left. rewrite (h3 Hc). rewrite orb_true_r. reflexivity.
 Qed.
@@ -72,15 +72,46 @@ Definition close_releases_full : Prop :=
 Lemma close_releases : close_releases_full.
 Proof. intros evs s Hr Hc. apply (wake_or_helper evs Hr). right. left. exact Hc. Qed.
 
+(* ... and that closer's next step is ENABLED and closes closeNotifyCh (in particular Stream.close notifies
+   BEFORE it waits for a running callback goroutine: a reader parked inside that callback cannot hold it up) *)
+Lemma close_helper_enabled : forall s,
+  ppc s = true \/ lc_mid_open (lc s) = true \/ dpc s = true ->
+  exists e, is_reader_ev e = false /\ closeN (step s e) = true.
+Proof.
+  intros s [H|[H|H]].
+  - exists PClose2. split; [reflexivity|]. unfold step; cbn [step_gen]. rewrite H. reflexivity.
+  - exists LNotify. split; [reflexivity|]. unfold step; cbn [step_gen]. unfold lc_mid_open in H.
+    destruct (lc s) as [| |o|o|o|o]; try discriminate; destruct o; try discriminate; cbn; rewrite ?orb_true_r; reflexivity.
+  - exists LDefer2. split; [reflexivity|]. unfold step; cbn [step_gen]. rewrite H. reflexivity.
+Qed.
+
+(* REGRESSION: the order of Stream.close before the repair (Wait ; clean ; notify).  Callbacks installed; Close
+   has read callbackInProcess == 0; data arrives, the callback goroutine enters OnData which parks in a read for
+   more; close() wins its CAS and waits for the callback goroutine BEFORE it would close closeNotifyCh: *)
+Definition witness_close_waits_for_ondata : list ev :=
+  [SetCb; EAdd 4; EFin; RCall 8; RStep; RStep; RWake BNotify; RStep; LLoad; LCas].
+
+Lemma old_close_order_deadlocks :
+  let s := run_old_close witness_close_waits_for_ondata init in
+  rd s = RParked /\ ss s = SClosed /\ wake_enabled s = false /\ lc s = LCased SOpen /\
+  step_old_close s LClean = s /\ step_old_close s LNotify = s /\ step_old_close s PClose1 = s /\
+  step_old_close s PClose2 = s /\ step_old_close s LDefer1 = s /\ step_old_close s LDefer2 = s /\ step_old_close s EFin = s.
+Proof. vm_compute. repeat split. Qed.
+
+Lemma new_close_order_releases :
+  let s := run (witness_close_waits_for_ondata ++ [LNotify; RWake BClose; RStep; LClean]) init in
+  res s = Some RErrClosed /\ lc s = LIdle /\ closeN s = true.
+Proof. vm_compute. repeat split. Qed.
+
 Lemma timeout_step : forall s e, TInv s ->
   res (step s e) = Some RErrTimeout -> res s <> Some RErrTimeout ->
   exists d, dl s = Some d /\ d <= now s.
 Proof.
   intros s e [h4 h5 h7].
-  destruct s as [pend0 rbuf0 token0 closeN0 ss0 epc0 ppc0 lc0 sclosing0 dpc0 now0 dl0 tmr0 tch0 ptick0 use_t0 armed0 rd0 minsz0 res0].
+  destruct s as [pend0 rbuf0 token0 closeN0 ss0 epc0 ppc0 lc0 sclosing0 dpc0 cbmode0 now0 dl0 tmr0 tch0 ptick0 use_t0 armed0 rd0 minsz0 res0].
   cbn in h4, h5, h7.
-  destruct e; cbn [step]; unfold reader_step, wake, take_tick, finish_early, finish_late, move_to, set_rd;
-    cbn [pend rbuf token closeN ss epc ppc lc sclosing dpc now dl tmr tch ptick use_t armed rd minsz res];
+  destruct e; unfold step; cbn [step_gen]; unfold cb_busy, reader_step, wake, take_tick, finish_early, finish_late, move_to, set_rd;
+    cbn [pend rbuf token closeN ss epc ppc lc sclosing dpc cbmode now dl tmr tch ptick use_t armed rd minsz res];
     brk; cbn; intros A B; try congruence.
   (* the only case left: the parked select took the timer branch *)
   all: norm; exists armed0; cbn in *; intuition congruence.
